@@ -29,7 +29,7 @@ def run(chk):
     for i, o in enumerate(ORDERS3):
         tasks.append(dict(n=3, order=o, via=ORDERS3[(i + 2) % 6] if i % 2 else None,
                           us_stride=1, us_offset=0,
-                          extra=chk.th(1, 1) + i % 2))
+                          extra=1 if q else 1 + i % 2))
     if q:
         for part in range(4):
             tasks.append(dict(n=4, order=ORDERS4[(chk.seed + 9) % 24], via=None,
